@@ -218,6 +218,7 @@ impl Exec {
                 });
             }
         }
+        let unknown = self.phase_unknown;
         if st1 != st0 {
             self.reset_phase();
             if st1 == State::Sustain {
@@ -274,7 +275,7 @@ impl Exec {
         }
 
         // ---------------- C03: continuity
-        if !self.phase_unknown && ctx.on(3) {
+        if !unknown && ctx.on(3) {
             let mut bound = 0.0f64;
             if timed(st0) {
                 let sl = if st0 == State::Attack { S_ATTACK } else { S_DECAY };
